@@ -368,6 +368,7 @@ func checkC14(c *Check) {
 	// the manifest the manager receives is the newest one the manifest manager accepted (shared with C20-R4), and the
 	// group a manager is created with is its own (no pointer to a per-loop variable handed to several managers)
 	c.announcesLatestManifest("R4")
+	c.exactGroupNames("R4")
 	c.loopVarAddressEscapes("R4", []string{"provider/cluster"})
 	c.inventoryClientRules("R6")
 	c.cancelBeforeDrain("R3", l.Func("provider/cluster", "deploymentMonitor", "run"))
